@@ -546,6 +546,8 @@ fn main() {
             }
         }
     }
+    // all "no statistics" configurations first (simplest first), then the "equal statistics" ones
+    cfgs.sort_by_key(|(cl, eq)| (*eq, cl.n()));
     let mut enum_rows: Vec<Value> = Vec::new();
     let (mut graphs_total, mut reps_total) = (0u64, 0u64);
     let mut enum_complete = true;
